@@ -7,7 +7,8 @@ COQ_PROP = "Properties/C09.v"; COQ_DIRS = ["Common", "Life"]
 COQ_MODULE = "Life.Model"; RUN_FN = "run"
 THEOREMS = ["C09_handler_runs_only_if_active", "C09_calls_carry_active", "C09_inert_while_down", "C09_reset_once_per_shutdown",
             "C09_restart_stages_once_at_time", "C09_old_incarnation_silent", "C09_fresh_after_restart_partial", "C09_shutdown_frame",
-            "C09_delivery_independent_of_m", "C09_run_terminates", "C09_run_is_generated"]
+            "C09_delivery_independent_of_m", "C09_run_terminates", "C09_run_is_generated", "C09_first_state_is_fresh",
+            "C09_shutdown_leaves_fresh", "C09_restart_runs_first_start_callback"]
 QUICK_N = 2500; THOROUGH_N = 120000
 RULE = ("scripts = 2..4 scripted modules on a ring (gate out -> next module, gate far -> transit gate of the next module -> the one after), "
         "each with handler programs selected by payload, start programs selected by incarnation, up to 3 tokio tasks (sleep / log / send / "
@@ -19,7 +20,8 @@ RULE = ("scripts = 2..4 scripted modules on a ring (gate out -> next module, gat
         "{timer deadline at that instant} x {restart delay} x {gate}.  non-trivial = distinct script whose run resets a module and hits >= 3 "
         "targeted mechanisms")
 TRUSTED = ["user code is a script language: log / send_in(out|far) / schedule_in / sleep (tasks) / shutdown / shutdow_and_restart_in / panic / "
-           "quiet / set_stereotyp; tasks are spawned by at_sim_start(0) only (tokio::spawn + try_join), one timer per task at a time",
+           "quiet / set_stereotyp; tasks are spawned by at_sim_start(0) only (tokio::spawn, handle given to join or try_join as the script "
+           "says; spawn and task end are logged by the scripted code), one timer per task at a time",
            "the event set is the two-list specification that C01 proves the calendar queue refines",
            "tokio is modelled as: woken and freshly spawned tasks are polled once each, FIFO, by the yield inside Harness::exec; dropping "
            "the runtime cancels every task and removes its timer entry (observed through task logs and drop guards, not proved)",
@@ -47,8 +49,14 @@ CLAIM = dict(
     note="Trusted: Coq kernel; extraction cross-checked in-Coq on a sample each run; harness/generator quality bounds the tie to the code. "
          "Not modelled: that dropping the tokio runtime really cancels tasks (observed via drop guards and task logs). The tear-down sweep calls "
          "at_sim_end on every module irrespective of is_active; that lifecycle call is not a 'message handler, task or timer' and is "
-         "outside (1)-(2) (the start-up sweep skips inactive modules since 1526470 and is covered). 'Behaves like a freshly started module' is claimed in "
-         "the form (5) + (4): fresh tasks, stages replayed; a whole-trace comparison with a fresh module is not proved. Every run of the "
+         "outside (1)-(2) (the start-up sweep skips inactive modules since 1526470 and is covered). 'Behaves like a freshly started module' is proved "
+         "in this form (C09_fresh_after_restart_partial, C09_shutdown_leaves_fresh, C09_restart_runs_first_start_callback): the pieces a module "
+         "keeps across shutdown/restart are explicit (user struct = incarnation counter and budget, next_wakeup, JoinHandles, stereotype); "
+         "consuming a shutdown request leaves exactly the state of a newly created module around those pieces, a restart event finds the module "
+         "in such a state, and module_restart is 'set active, then the first start's at_sim_start(stage) callbacks in order with the restart "
+         "time' (for one stage: literally the first start's callback). Remaining differences, by design of the code: the kept pieces, and a "
+         "multi-stage restart runs all stages in one event (buffered events and shutdown requests are handled once at its end, not after "
+         "each stage as in the start-up sweep). A whole-trace comparison with a second run of a fresh module is not proved. Every run of the "
          "model terminates (proved: C09_run_terminates), so 'no restart left over' holds unconditionally. Timer exactness is a monitor "
          "clause (computed from the log alone), not a Coq theorem; in the model it holds by construction of the differential check.",
     technique="Coq: invariants over a step relation generating every world of the run (reset => down, down => inert), an interpreter invariant "
